@@ -276,12 +276,16 @@ def a1_argmax_comparator(F, r):
 
 def run(ctx):
     ctx.explanation = (
-        "Only the structural clauses of C18's last sentence are decided: every Termination::estimate is a literal in [0,1], clamped by min(_,1.0)/clamp or the "
-        "max of member estimates (T1, shared with C07); the variation criterion folds over ALL objectives from `true`, an objective above the threshold "
-        "blocks it and one not above continues (V1, finite-ordering evaluation of the per-objective step over cv <,=,> threshold); the verdict is reported "
-        "iff the criterion is global or the population is in its exploitation phase (V2, evaluated over is_global x phase).")
-    ctx.not_decided = ("everything numerical: finiteness/validity of the normal-gamma learning state, reward ranges, sampling and arg-max never failing, "
-                       "the value of the coefficient of variation itself, window bookkeeping — these quantify over float histories and are outside static reach.")
+        "Decided for every reward history, under real-number semantics (NaN / overflow / underflow NOT modelled): (S1) sign abstract interpretation shows the "
+        "SlotMachine invariant alpha>0, beta>0, v>=0, n>=0 is established by every constructor and preserved by every function that writes these fields (writers are "
+        "discovered, not listed); (S2) every gamma call receives shape>0 and scale>0 and every normal call std>=0, with edge refinement of the zero-precision guard, and "
+        "no division by a possibly-zero value on those paths; (S3) the distance reward is >=0, the performance multiplier evaluates to a finite constant set inside "
+        "(~0.5,3], the reward handed to the learner is >=0; (A1) the arg-max comparator answers the true order (finite-ordering evaluation); every "
+        "Termination::estimate is a literal in [0,1], clamped or a max of members (T1); the variation criterion folds over ALL objectives from `true`, an objective "
+        "above the threshold blocks it (V1), and its verdict is reported iff global or exploitation phase (V2).")
+    ctx.not_decided = ("finiteness of the learning state (NaN/inf through overflow or a non-finite reward), mean within the hull of seen rewards, the upper bound 6 of the "
+                       "distance reward (relational), weighted sampling, the value of the coefficient of variation and the window bookkeeping.")
+    ctx.assumptions += ["a gamma variate is >= 0", "rewards are finite reals", "float rounding, overflow and underflow are outside the sign domain"]
     ctx.run("C07-T1", "termination estimates stay within [0,1] by construction", c07.t1_estimates_clamped, floor=5)
     ctx.run("C18-V1", "variation criterion: universal fold over objectives with the documented per-objective step", v1_threshold_fold, floor=4)
     ctx.run("C18-V2", "variation verdict reported iff global or exploitation phase", v2_phase_gating, floor=6)
